@@ -243,6 +243,13 @@ func drive(tr transform.Transformer, src []byte, sc schedule) (out []byte, breac
 			}
 			if errors.Is(err, transform.ErrShortDst) {
 				if nDst == 0 && nSrc == 0 {
+					if c >= 3 && len(pending) > 0 {
+						// a destination that holds a whole escape sequence is enough
+						// to get on by at least one byte or one sequence: a consumer
+						// with a fixed buffer (transform.Reader has 4096 bytes) would
+						// otherwise never finish
+						return out, fmt.Sprintf("Transform(dst[%d], %q, %v) = (0, 0, ErrShortDst): no progress although the destination holds a whole escape sequence", c, pending, atEOF)
+					}
 					grow = grow*2 + 1
 				}
 				continue
